@@ -19,8 +19,13 @@ VARIABLES st, l, hm
 
 tvars == <<st, l, hm>>
 
+Fld(rec, name, dflt) == IF name \in DOMAIN rec THEN rec[name] ELSE dflt
+(* what the options API must make of the keepalive values it is given (config.rs): timeout >= interval when both are set *)
+ClampT(i, t) == IF t = 0 THEN 0 ELSE IF i = 0 THEN t ELSE IF t < i THEN i ELSE t
 CfgOf(r) == [e \in E |-> [rwnd |-> r.cfg[e].rwnd, thr |-> r.cfg[e].thr, acceptCap |-> r.cfg[e].acceptCap,
-                          dgCap |-> r.cfg[e].dgCap, bindCap |-> r.cfg[e].bindCap, retries |-> r.cfg[e].retries]]
+                          dgCap |-> r.cfg[e].dgCap, bindCap |-> r.cfg[e].bindCap, retries |-> r.cfg[e].retries,
+                          kaI |-> Fld(r.cfg[e], "kaI", 0),
+                          kaT |-> ClampT(Fld(r.cfg[e], "kaI", 0), Fld(r.cfg[e], "kaT", 0))]]
 
 NoMap == [e \in E |-> <<>>]
 
@@ -207,6 +212,12 @@ TFault ==
                    [] OTHER -> {})
      /\ UNCHANGED hm
 
+(* virtual time passes (whole seconds) *)
+TAdvance ==
+  /\ Is("advance")
+  /\ R.frac = 0
+  /\ st' \in AdvanceTo(st, R.t) /\ UNCHANGED hm
+
 JMsg(j) == [MkMsg(j.op) EXCEPT !.id = j.id, !.n = j.n, !.host = j.host, !.port = j.port,
                                !.w = j.w, !.off = j.off, !.len = j.len, !.bt = j.bt, !.data = j.data]
 
@@ -282,7 +293,7 @@ TQuiesce ==
 Next ==
   \/ TOpen \/ TOpenPoll \/ TAccept \/ TWrite \/ TRead \/ TShutdown \/ TDropS \/ TDropMux \/ TCancel
   \/ TDgSend \/ TDgGet \/ TBind \/ TBindPoll \/ TNextBind \/ TBindReply \/ TBindDrop
-  \/ TTask \/ TFault \/ TInject \/ TTake \/ TReset \/ TQuiesce
+  \/ TTask \/ TFault \/ TAdvance \/ TInject \/ TTake \/ TReset \/ TQuiesce
   \/ TBridgeStart \/ TBridgePoll \/ TBridgeDrop
 
 Spec == Init /\ [][Next]_tvars
